@@ -68,6 +68,9 @@ NoSym == [s90 |-> FALSE, s180 |-> FALSE, sseg |-> FALSE, ss |-> FALSE, sz |-> FA
 (* shift_z is implemented and asking for any other switch disables all;    *)
 (* Generic: no symmetries.                                                 *)
 PhiOffsetZero(c, g) == c.mash = 1 /\ ~g.tilt
+\* azimuthal angle of a view in units of pi/N (half an unmashed view step): mashing `mash' views puts the mashed
+\* view in the middle of them, "an extra offset of (mash-1) pi/N"; zero for view 0 iff there is no mashing (and no tilt)
+PhiQ(c, view) == 2 * c.mash * view + (c.mash - 1)
 \* BlocksOnCylindrical data: c.cpb = axial crystals per block, c.uniform = the axial block spacing is cpb crystal spacings
 UniformAxial(c) == "uniform" \notin DOMAIN c \/ c.uniform
 \* ProjMatrixByBinUsingRayTracing with use_actual_detector_boundaries (section 3b).  The unchanged
@@ -374,6 +377,9 @@ NumRelated(c, esw, b) ==
   * (IF esw.ss /\ b.tang # 0 THEN 2 ELSE 1)
   * (IF esw.sz THEN NumAx(c, b.seg) ELSE 1)
 
+\* basic bin and operation for either geometry class
+FindBasicG(c, g, esw, b) == IF g.geom = "BlocksOnCylindrical" THEN FindBasicBlocks(c, esw, b) ELSE FindBasic(c, esw, b)
+FindOpG(c, g, esw, b) == IF g.geom = "BlocksOnCylindrical" THEN FindOpBlocks(c, g, esw, b) ELSE FindOp(c, g, esw, b)
 \* S1 / S2 for block geometry (the lines are the nominal ones: the axial sampling is uniform)
 S1Blocks(c, g, esw, b) ==
   LET bb == FindBasicBlocks(c, esw, b) IN
